@@ -25,6 +25,7 @@ pub fn gen(family: &str, r: &mut Rng) -> Scenario {
         "fut" => fut(r),
         "mem" => mem(r),
         "scan" => scan(r),
+        "pin" => pin(r),
         "kf1" => kf1(r),
         "kf12" => kf12(r),
         _ => ring(r, false),
@@ -408,6 +409,26 @@ fn scan(r: &mut Rng) -> Scenario {
         main.push(Op::SendRetry(0, 3));
     }
     Scenario { cfg, main, epilogue: Epilogue::Probe, family: "scan".into() }
+}
+
+/// the unpinned read of a lone consumer (F16, fixed): consumer A of a shared stream is held right after it has
+/// loaded its position, its sibling B takes that position and leaves, A goes on (with `is_single` true it would
+/// skip the pin), and the producer wraps onto the slot A is reading. Run under `Strategy::Script`.
+fn pin(r: &mut Rng) -> Scenario {
+    let cap = pick(r, &[1u64, 1, 2]);
+    let n = crate::monitors::valid_wrap(cap);
+    let cfg = QCfg { bcast: r.chance(3, 4), fut: false, cap, wait: WaitCfg::Busy, fspins: None };
+    let mut main = Vec::new();
+    main.push(Op::Clone(1)); // slot 2: sibling handle B of stream 0
+    for _ in 0..n {
+        main.push(Op::TrySend(0));
+    }
+    main.push(Op::Spawn(vec![1], vec![Op::TryRecv(0), Op::TryRecv(0)]));
+    main.push(Op::Spawn(vec![2], vec![Op::TryRecv(0), Op::Drop(0)]));
+    for _ in 0..(n + 1) {
+        main.push(Op::SendRetry(0, 3));
+    }
+    Scenario { cfg, main, epilogue: Epilogue::Probe, family: "pin".into() }
 }
 
 /// known finding F1: add_stream by a handle that shares its stream with a consumer that keeps receiving
